@@ -141,8 +141,23 @@ def load_known():
 
 
 # ---------------------------------------------------------------------------- leg A
+def proof_modules(pid):
+    """the property file and, if present, its extension `SeedProofs/<pid>x.lean`: property theorems that are proved ON TOP of
+    the property file (in lemma files that import it) are listed there, so that the property file need not import them"""
+    mods = [f"SeedProofs.{pid}"]
+    if (core.LEAN_DIR / "SeedProofs" / f"{pid}x.lean").exists():
+        mods.append(f"SeedProofs.{pid}x")
+    return mods
+
+
 def theorem_names(pid):
-    fp = core.LEAN_DIR / "SeedProofs" / f"{pid}.lean"
+    out = []
+    for mod in proof_modules(pid):
+        out += theorem_names_of(core.LEAN_DIR / (mod.replace(".", "/") + ".lean"))
+    return out
+
+
+def theorem_names_of(fp):
     if not fp.exists():
         return []
     names = []
@@ -178,7 +193,7 @@ def leg_a(ctx):
     if not names:
         ctx.proof["broken"].append(("SeedProofs." + pid, "no property theorems found"))
         return
-    rc, log = core.lake_build(["SeedModel", "seedmodel", f"SeedProofs.{pid}"])
+    rc, log = core.lake_build(["SeedModel", "seedmodel"] + proof_modules(pid))
     if rc != 0:
         # which theorem broke?  take the first error line
         errs = [l for l in log.split("\n") if "error" in l]
@@ -200,7 +215,7 @@ def leg_a(ctx):
                 ctx.proof["broken"].append((f"{fp.name}:{i+1}", f"forbidden construct: {line.strip()[:80]}"))
     # axioms audit
     audit = core.BUILD / f"Audit_{pid}.lean"
-    audit.write_text(f"import SeedProofs.{pid}\n" + "".join(f"#print axioms {n}\n" for n in names))
+    audit.write_text("".join(f"import {m}\n" for m in proof_modules(pid)) + "".join(f"#print axioms {n}\n" for n in names))
     r = core.run_cmd(["lake", "env", "lean", str(audit)], cwd=core.LEAN_DIR)
     out = r.stdout.decode(errors="replace")
     seen = {}
@@ -216,16 +231,18 @@ def leg_a(ctx):
             ctx.proof["discharged"] += 1
     ctx.proof["axioms"] = seen
     if ctx.tier == "thorough":
-        r = core.run_cmd(["lake", "env", "leanchecker", f"SeedProofs.{pid}"], cwd=core.LEAN_DIR)
-        ctx.proof["leanchecker_rc"] = r.returncode
-        if r.returncode != 0:
-            ctx.proof["broken"].append((f"leanchecker SeedProofs.{pid}", r.stdout.decode(errors="replace")[-600:]))
+        for mod in proof_modules(pid):
+            r = core.run_cmd(["lake", "env", "leanchecker", mod], cwd=core.LEAN_DIR)
+            ctx.proof["leanchecker_rc"] = r.returncode
+            if r.returncode != 0:
+                ctx.proof["broken"].append((f"leanchecker {mod}", r.stdout.decode(errors="replace")[-600:]))
+                break
     ctx.proof["wall_s"] = round(time.time() - t0, 1)
 
 
 def import_closure(pid):
     """the SeedProofs / SeedModel source files that SeedProofs.<pid> transitively imports (itself included)"""
-    seen, todo = {}, [f"SeedProofs.{pid}"]
+    seen, todo = {}, list(proof_modules(pid))
     while todo:
         mod = todo.pop()
         if mod in seen:
@@ -304,6 +321,9 @@ def main():
     if build_ok:
         try:
             mod.run(ctx, model_ok)
+            # the everyday idioms that exercise this property's statement (lib_idioms: hand-written expectations, no model)
+            import lib_idioms
+            lib_idioms.run(ctx, core, pid)
         except Exception:
             ctx.unproved("harness", "the check's own machinery raised an exception", {"trace": traceback.format_exc()})
     # the listed known findings of this property are probed explicitly, so that each still-present one is reported as
